@@ -236,11 +236,12 @@ def _is_py_version_compatible(py_version: str) -> bool:
 
 def _py_version_score(py_version: str) -> int:
     # Integer will look like:
-    # 0xMNAABB where
+    # 0xMNNNAABB where
     # A is the first digit of the implementation code (e.g. cp for Cython)
     # B is the second digit
     # M is the implementation major version
-    # N is the implementation minor version (0 if omitted)
+    # NNN is the implementation minor version (0 if omitted; 12 bits, so that
+    #   minor versions from 16 on do not run into the major version)
 
     # Bias CPython higher, and naked py always at the bottom
     impl_score_defaults = {
@@ -254,7 +255,7 @@ def _py_version_score(py_version: str) -> int:
     if impl_score is None:
         impl_score = ord(impl[0]) << 8 | ord(impl[1])
 
-    score = impl_score | (major << 20) | (minor << 16)
+    score = impl_score | (major << 28) | (minor << 16)
     return score
 
 
